@@ -810,6 +810,32 @@ theorem match_direction_tolerance (d s t tol : Rat) :
     mgAlign d s t tol = .ok (false, 0) ↔ ¬ (rabs (d - 1) < tol ∨ rabs (d + 1) < tol) :=
   mgAlign_direction d s t tol
 
+/-! ## sound AND complete around the tolerance: sub-voxel shifts of a reachable target -/
+
+/-- **`match_geometry` decides sub-voxel shifts exactly at `tol`** (whole call, not only the loop body).  Let the target have
+the axes and shape of a reachable lattice (axis `i` along source axis `p i`, stride `st i`, origin on source voxel `first`),
+but its origin `e i` source voxels off that voxel along each axis, `|e i| < 1/2`, source well-formed, `0 < tol ≤ 1`:
+* if every `|e i| ≤ tol` and the origin is within `tol` of the lattice point as `geometry_equal` measures it (absolute,
+  `|a-b| ≤ tol + 1e-5|b|`), the call SUCCEEDS, with exactly the volume it returns for the unshifted target (`onLattice`): same
+  plan, same voxels, affine columns of the target, origin on the lattice point;
+* if some `|e i| > tol`, the call is REFUSED with RuntimeError. -/
+theorem match_shifted_target_decided_at_tol {α : Type} (src : Vol α) (T : Geom) (tol : Rat) (c : PadMode α)
+    (hwf : WF src.geom) (hshape : ∀ i, 1 ≤ T.shape i) (h0 : 0 < tol) (h1 : tol ≤ 1)
+    (p : Ax → Ax) (first st : Ax → Int) (hp : isPerm p = true) (hst : ∀ i, st i ≠ 0)
+    (hdir : T.dir = (sliceGeom (permuted src.geom p) first st T.shape).dir)
+    (hsp : T.spacing = (sliceGeom (permuted src.geom p) first st T.shape).spacing)
+    (hcs : T.cs = src.geom.cs) (hfor : forConflict src.geom T = false)
+    (e : Ax → Rat) (he : ∀ i, -(1 / 2) < e i ∧ e i < 1 / 2)
+    (hpos : T.pos = (permuted src.geom p).toRef (fun i => (first i : Rat) + e i)) :
+    ((∀ i, rabs (e i) ≤ tol) → VecWithin tol (onLattice src.geom T p first st).pos T.pos →
+      ∃ r, matchGeometry src T tol c = .ok r ∧ matchGeometry src (onLattice src.geom T p first st) tol c = .ok r ∧
+        (∀ i, r.geom.col i = T.col i) ∧ r.geom.pos = (onLattice src.geom T p first st).pos ∧
+        (∀ i, r.geom.shape i = T.shape i)) ∧
+    ((∃ i, tol < rabs (e i)) → matchGeometry src T tol c = .error .runtime) :=
+  ⟨fun hle hclose => matchGeometry_shifted src T tol c hwf hshape h0 h1 p first st hp hst hdir hsp hcs hfor e
+      (fun i => ⟨hle i, (he i).1, (he i).2⟩) hpos hclose,
+   fun hbad => matchGeometry_shift_refused src T tol c hwf hshape h0 h1 p first st hp hst hdir hsp hcs hfor e he hpos hbad⟩
+
 /-! ## frame of reference of the result -/
 
 /-- **The matched volume keeps the SOURCE's frame of reference and coordinate system** (it does not adopt the target's): when
@@ -836,6 +862,13 @@ theorem match_own_geometry {α : Type} (src : Vol α) (tol : Rat) (mode : PadMod
   exact ((match_sound src src.geom tol mode hlaw r hwf.det_ne_zero hr1).2 k hk').1 k hk href.symm
 
 /-! ## non-vacuity (round 2) -/
+
+/-- the round-1 target shifted by a millionth of a source voxel along x (its axis 1): matched, voxels as for the unshifted
+target; shifted by a quarter voxel: refused (the hypotheses of `match_shifted_target_decided_at_tol` with `e = (0, 1/1000000, 0)`
+resp. `(0, 1/4, 0)`, `p`, `first`, `st` as in `Reachable exSrc.geom exTgt`) -/
+example : (match matchGeometry exSrc { exTgt with pos := ⟨9 + 1 / 1000000, 20 + 1 / 2, 36⟩ } (1 / 100000) (.constant (-7)) with
+    | .ok r => r.vox (mk3 0 1 0) == 13 && r.vox (mk3 1 2 1) == 121 && r.vox (mk3 0 0 0) == -7 && decide (r.geom.pos = exTgt.pos)
+    | .error _ => false) = true := by decide +kernel
 
 /-- negative tolerance: identical geometries still compare equal (numpy's `x == y` term), any difference does not -/
 example : geometryEqual (unitGeom 5 none) (unitGeom 5 none) (some (-1)) = .ok true ∧
